@@ -1,9 +1,10 @@
 (* C02 runners.
    c02     : an encoded request (Lang/Codec.v) -> the reference interpreter's rendering:
              [0; n; c1..cn] rendered text | [1; code] error | [2] panic | [8] out of gas | [9] undecodable
+   c02-mode: n c1..cn (a template name) -> [m]: the default auto-escape mode of that name, 0 none | 1 html | 2 json
    c02-ok  : same input -> [b; d]: b = the program is in the theorem's fragment (safe_free), d = the context is plain data *)
 From Coq Require Import String.
-From MJ Require Import Common.Base Lang.Syntax Lang.Meta Lang.Interp Lang.Codec C02.Spec.
+From MJ Require Import Common.Base Lang.Syntax Lang.Meta Lang.Interp Lang.Codec C02.Spec C02.Names.
 
 Definition FUEL := 400%nat.
 
@@ -26,5 +27,14 @@ Definition run_ok (inp : list Z) : list Z :=
       [if safe_free body then 1 else 0; if forallb (fun p => data_value (snd p)) ctx then 1 else 0]
   end.
 
+Definition run_mode (inp : list Z) : list Z :=
+  match inp with
+  | n :: r => match take_n (Z.to_nat n) r with
+              | Some (name, _) => [match default_mode name with MNone => 0 | MHtml => 1 | MJson => 2 end]
+              | None => [9]
+              end
+  | [] => [9]
+  end.
+
 Open Scope string_scope.
-Definition runners : list (string * (list Z -> list Z)) := [ ("c02", run); ("c02-ok", run_ok) ].
+Definition runners : list (string * (list Z -> list Z)) := [ ("c02", run); ("c02-ok", run_ok); ("c02-mode", run_mode) ].
